@@ -1,9 +1,9 @@
-\* the code as it is (all three switches off): used to tell which recorded violations are the known ones
+\* the code as it is (null members are kept since 2e39ed6; the other repairs are not in the code): used to tell which recorded violations are the known ones
 SPECIFICATION TSpec
 CONSTANTS
   ShardFailureFix = FALSE
   CursorFix = FALSE
   CursorRawDecode = FALSE
-  NullMemberFix = FALSE
+  NullMemberFix = TRUE
   InputSets <- NoInputs
 CHECK_DEADLOCK FALSE
